@@ -415,9 +415,11 @@ def stream(prop, seed, n, mode="wrapping"):
             if prop == "C13" and c["env"]["kind"] == "slice":
                 c["env"]["adaptor"] = r.choice(["cloned", "copied"])
                 c["env"]["owning"] = False
-        elif prop in ("C05", "C06", "C11") and r.chance(1, 10):
+        elif prop in ("C05", "C06", "C11") and r.chance(1, 8):
             # the extremes of usize: huge ranges and chunk sizes, several skips, zero chunk sizes
             c = gen_boundary(r, cid, mode)
+            if prop == "C11":
+                c["progs"][0] += [r.choice(["more", "len"]), "next:idval", r.choice(["more", "len"])]
         elif prop in ("C02", "C03", "C04") and r.chance(1, 8):
             # indices and chunk contract of what is delivered before and after a panic of the wrapped iterator or a closure
             c = gen_conc(r, cid, dict(next=4, chunk=3, buf=3, loop=1, loopcrash=1), mode=mode, crash=True)
